@@ -102,7 +102,7 @@ theorem closed_of_gpass_fix {items idx} (h : (gpass items idx).length = idx.leng
   split at this
   · rename_i hc; simpa using hc
   · have := congrArg List.length this
-    simp [hh] at this
+    simp at this
 
 theorem mem_of_reach {items idx} (hc : GClosed items idx) {n} (hr : Reach items n) : n ∈ idx := by
   induction hr with
